@@ -40,7 +40,7 @@ def cases(tier, seed):
     cs = []
     for kind in KINDS:
         # Semiring.solve on dense tensors
-        for n in ((1, 2) if tier == 'quick' or kind in ('real', 'log') else (1, 2, 3)):
+        for n in ((1,) if kind == 'log' else (1, 2) if tier == 'quick' or kind == 'real' else (1, 2, 3)):
             for m in (None, 1, 2):
                 cs.append({'entry': 'solve', 'semiring': kind, 'n': n, 'm': m})
         # PatternedTensor.solve on typed pattern pairs
@@ -55,15 +55,23 @@ def cases(tier, seed):
                 if len(pairs) > cap:
                     pairs = pairs[:2] + rng.sample(pairs[2:], cap - 2)
                 for ra, rb in pairs:
+                    if kind in ('real', 'log') and patterns.nelems(ra) + patterns.nelems(rb) > (6 if kind == 'real' else 4):
+                        continue
                     da, db = rng.choice([('zero', 'zero'), ('zero', 'zero'), ('one', 'zero'), ('zero', 'top'), ('top', 'one')])
                     cs.append({'entry': 'pt_solve', 'semiring': kind, 'types': patterns.depict_type(t),
                                'operands': [{'recipe': ra, 'default': da}, {'recipe': rb, 'default': db}]})
         # multi_solve / multi_mv over all block structures on two keys
         shape_sets = [{'x': [2], 'y': []}] if tier == 'quick' else [{'x': [2], 'y': []}, {'x': [], 'y': []}, {'x': [2], 'y': [1]}, {'x': [1, 2], 'y': []}]
+        if kind in ('real', 'log'):
+            # nonlinear real arithmetic: flattened order 2 (scalar blocks); the block bookkeeping itself is
+            # semiring-generic and is covered with larger blocks in the Viterbi/Bool semirings
+            shape_sets = [{'x': [], 'y': []}] if tier == 'quick' else [{'x': [], 'y': []}, {'x': [1], 'y': []}]
         for shapes in shape_sets:
             allab = [('x', 'x'), ('x', 'y'), ('y', 'x'), ('y', 'y')]
             for mask in range(16):
                 ab = [allab[i] for i in range(4) if mask >> i & 1]
+                if kind == 'log' and len(ab) > 2:
+                    continue     # stated bound: the Log solver is decided for at most two present blocks
                 for bmask in range(1, 4):
                     bb = [k for i, k in enumerate(['x', 'y']) if bmask >> i & 1]
                     for tr in (False, True):
@@ -103,20 +111,34 @@ def run_case(col, case, dt='float32'):
         sizes = [sum(numel[a] * numel[b] for a, b in case['ablocks']), sum(numel[k] for k in case['bblocks'])]
         ny = numel['x'] + numel['y']
     nunk = sum(sizes)
+    rng = random.Random(hash(repr(case)) & 0xffff)
     if kind in ('viterbi', 'bool'):
-        regimes = ['T']
-    elif nunk + ny <= 8:
-        regimes = ['T']
+        profiles = [None]                     # regime T: all special values symbolic at once
     else:
-        regimes = ['F']
-    for regime in regimes:
+        # regime S: every entry gets a class zero / positive-finite (symbolic) / infinite; all 3^k profiles when
+        # k <= 6, otherwise the all-positive profile plus a seeded sample; comparisons fork (If-free queries)
+        if 3 ** nunk <= 729:
+            profiles = list(itertools.product('ZPI', repeat=nunk))
+        else:
+            profiles = [tuple('P' * nunk)] + [tuple(rng.choice('ZPPI') for _ in range(nunk)) for _ in range(40)]
+        if len(profiles) > 120:
+            profiles = profiles[:1] + rng.sample(profiles[1:], 119) if profiles[0] == tuple('P' * nunk) else rng.sample(profiles, 120)
+    sx.FORK[0] = kind in ('real', 'log')
+    for prof in profiles:
+        regime = 'T' if prof is None else 'S'
         V = symvals.Vars()
+        cnt = [0]
+
+        def mk(name):
+            cls = 'T' if prof is None else prof[cnt[0]]
+            cnt[0] += 1
+            return V.elem(name, kind, cls)
         if entry in ('solve', 'pt_solve'):
-            elems = [[V.elem(f'a{i}', kind, regime) for i in range(sizes[0])], [V.elem(f'b{i}', kind, regime) for i in range(sizes[1])]]
+            elems = [[mk(f'a{i}') for i in range(sizes[0])], [mk(f'b{i}') for i in range(sizes[1])]]
         else:
             numel = {k: math.prod(v) for k, v in case['shapes'].items()}
-            ea = {a + b: [V.elem(f'a{a}{b}{i}', kind, regime) for i in range(numel[a] * numel[b])] for a, b in case['ablocks']}
-            eb = {k: [V.elem(f'b{k}{i}', kind, regime) for i in range(numel[k])] for k in case['bblocks']}
+            ea = {a + b: [mk(f'a{a}{b}{i}') for i in range(numel[a] * numel[b])] for a, b in case['ablocks']}
+            eb = {k: [mk(f'b{k}{i}') for i in range(numel[k])] for k in case['bblocks']}
             elems = [ea, eb]
         yel = [V.elem(f'y{i}', kind, 'T') for i in range(ny)]
 
@@ -131,11 +153,11 @@ def run_case(col, case, dt='float32'):
 
         def make_replay(vals, name):
             d = dict(case)
-            d.update({'dtype': dt, 'values': TL.jsonable(vals), 'claim': name, 'regime': regime})
+            d.update({'dtype': dt, 'values': TL.jsonable(vals), 'claim': name, 'regime': regime, 'profile': ''.join(prof) if prof else None})
             return d
         f = dict(feats)
         f['regime'] = regime
-        TL.explore(col, V, body, f, make_replay, label=f'{kind}/{entry}/{regime}', timeout_ms=60000)
+        TL.explore(col, V, body, f, make_replay, label=f'{kind}/{entry}/{regime}', timeout_ms=30000)
 
 
 def run_indexed(col, case, k):
